@@ -4,7 +4,7 @@ from core import Case
 
 PROP = 'C02'
 COQ_FILES = ['Extract/C02.v', 'Proofs/SignPlaceSeq.v', 'Proofs/SignPlaceTx.v', 'Proofs/TamperDigest.v',
-             'Proofs/TamperDigestWitness.v', 'Properties/C02.v']
+             'Proofs/TamperDigestWitness.v', 'Proofs/SignPlaceHashType.v', 'Properties/C02.v']
 DRIVER = 'c02'
 IMPL = 'harness/impl/c02_impl.py'
 ALLOWED_AXIOMS = []
